@@ -637,6 +637,58 @@ std::string behaviour(const tobject& object)
     return os.str();
 }
 
+// solvers own two nested configurable objects (step initialisation and line search): give them non-default parameters, so that a copy that
+// forgets them is visible both in the parameter comparison and in the behaviour probe
+template <class tobject>
+void configure_nested(tobject& object)
+{
+    if constexpr (std::is_base_of_v<solver_t, tobject>)
+    {
+        const auto tweak = [](auto& nested)
+        {
+            for (const auto& p0 : nested.parameters())
+            {
+                auto& p = nested.parameter(p0.name());
+                std::visit(overloaded{[&](const parameter_t::irange_t& r)
+                                      {
+                                          const auto hi = r.m_max - (std::holds_alternative<LE_t>(r.m_maxcomp) ? 0 : 1);
+                                          p             = std::min<int64_t>(hi, r.m_value + 3);
+                                      },
+                                      [&](const parameter_t::frange_t& r)
+                                      {
+                                          const auto v = 0.5 * (r.m_value + std::min(r.m_max, 2.0 * std::fabs(r.m_value) + 1.0));
+                                          if (std::isfinite(v) && v > r.m_min && v < r.m_max)
+                                          {
+                                              p = v;
+                                          }
+                                      },
+                                      [&](const parameter_t::enum_t& e) { p = e.m_domain.back(); }, [&](const auto&) {}},
+                           p0.storage());
+            }
+        };
+        auto ls0 = object.lsearch0().clone();
+        auto lsk = object.lsearchk().clone();
+        tweak(*ls0);
+        tweak(*lsk);
+        object.lsearch0(*ls0);
+        object.lsearchk(*lsk);
+    }
+}
+
+template <class tobject>
+bool nested_equal(const tobject& a, const tobject& b)
+{
+    if constexpr (std::is_base_of_v<solver_t, tobject>)
+    {
+        return a.lsearch0().type_id() == b.lsearch0().type_id() && a.lsearchk().type_id() == b.lsearchk().type_id() &&
+               a.lsearch0().parameters() == b.lsearch0().parameters() && a.lsearchk().parameters() == b.lsearchk().parameters();
+    }
+    else
+    {
+        return true;
+    }
+}
+
 template <class tobject>
 void sweep_object(const std::string& factory, const std::string& id, const tobject& object, int64_t& nobj)
 {
@@ -762,8 +814,9 @@ void sweep_object(const std::string& factory, const std::string& id, const tobje
     vt::put(vt::J("Clone").i("obj", a + 100000).i("of", a).b("idOK", original->type_id() == id).b("equal", original->parameters() == object.parameters()).i(
         "n", static_cast<int64_t>(original->parameters().size())).b("behaves", behaviour(*original) == behaviour(object)));
     modify(*original, static_cast<const tobject*>(nullptr), a + 100000, 0);
+    configure_nested(*original);
     auto clone = original->clone();
-    vt::put(vt::J("Clone").i("obj", b).i("of", a + 100000).b("idOK", clone->type_id() == id).b("equal", clone->parameters() == original->parameters()).i(
+    vt::put(vt::J("Clone").i("obj", b).i("of", a + 100000).b("idOK", clone->type_id() == id).b("equal", clone->parameters() == original->parameters() && nested_equal(*clone, *original)).i(
         "n", static_cast<int64_t>(clone->parameters().size())).b("behaves", behaviour(*clone) == behaviour(*original)));
     modify(*clone, original.get(), b, 1);
     for (const auto& p : original->parameters())
